@@ -343,15 +343,15 @@ if __name__ == "__main__":
         sys.argv.remove("--no-sd")
     else:
         rc_sd = _also_sd()
-    if rc_sd == 2:
-        sys.exit(2)
-    try:
-        texts = [(os.path.join(OUTDIR, f), translate(f, names)) for f, names in GROUPS]
-    except Unsupported as e:
-        print("py2coq: UNSUPPORTED: " + str(e), file=sys.stderr)
-        sys.exit(2)
+    texts, failed = [], []
+    for f, names in GROUPS:
+        try:
+            texts.append((os.path.join(OUTDIR, f), translate(f, names)))
+        except Unsupported as e:
+            print(f"py2coq: FAILED {f}: UNSUPPORTED: {e}", file=sys.stderr)
+            failed.append(f)
     if len(sys.argv) > 1 and sys.argv[1] == "--check":
-        same = all(os.path.exists(o) and open(o).read() == t for o, t in texts)
+        same = not failed and all(os.path.exists(o) and open(o).read() == t for o, t in texts)
         print("unchanged" if same else "CHANGED")
         sys.exit(0 if (same and rc_sd == 0) else 1)
     for o, t in texts:
@@ -360,3 +360,4 @@ if __name__ == "__main__":
         else:
             open(o, "w").write(t)
             print("wrote", os.path.normpath(o))
+    sys.exit(2 if (failed or rc_sd == 2) else 0)
